@@ -175,11 +175,14 @@ pub proof fn lemma_peval_trailing_zeros(c: Seq<FS>, x: FS, m: nat, n: nat)
     ensures peval(c, x, n) == peval(c, x, m)
     decreases n
 {
-    broadcast use ring_axioms;
-    if n > m { lemma_peval_trailing_zeros(c, x, m, (n - 1) as nat); lemma_mul_zero(f_pow(x, (n - 1) as nat)); }
+    if n > m {
+        lemma_peval_trailing_zeros(c, x, m, (n - 1) as nat);
+        lemma_mul_zero(f_pow(x, (n - 1) as nat));
+        ax_add_zero(peval(c, x, (n - 1) as nat));
+    }
 }
 pub proof fn lemma_peval_zero(c: Seq<FS>, x: FS, n: nat)
     requires n <= c.len(), forall|i: int| 0 <= i < n ==> c[i] == f_zero()
     ensures peval(c, x, n) == f_zero()
     decreases n
-{ broadcast use ring_axioms; if n > 0 { lemma_peval_zero(c, x, (n - 1) as nat); lemma_mul_zero(f_pow(x, (n - 1) as nat)); } }
+{ if n > 0 { lemma_peval_zero(c, x, (n - 1) as nat); lemma_mul_zero(f_pow(x, (n - 1) as nat)); ax_add_zero(f_zero()); } }
